@@ -32,6 +32,7 @@ type UnitResult struct {
 	ScriptLines        int               `json:"script_lines"`
 	LocalTypes         map[string]string `json:"-"`
 	AllLocals          map[string]string `json:"-"`
+	LocalRoles         map[string]string `json:"-"`
 	unit               *Unit
 }
 
@@ -72,6 +73,7 @@ func (eng *Engine) VerifyFunction(fn *ssa.Function, key string, sp *FuncSpec) *U
 	}
 	res.LocalTypes = u.computeAliases(key)
 	res.AllLocals = u.allLocals
+	res.LocalRoles = u.localRoles
 	func() {
 		defer func() {
 			if r := recover(); r != nil {
@@ -173,9 +175,12 @@ func (u *Unit) build() {
 		callsOf(ax.E, syms)
 		ar := axiomRange{from: from, to: c.Len()}
 		for s := range syms {
-			switch s {
-			case "len", "content", "old", "ite":
-			default:
+			// only declared (uninterpreted / recursive / heap) specification functions make an axiom relevant;
+			// builtins such as store, ite, len occur in almost every query
+			_, isU := u.eng.specs.UFns[s]
+			_, isR := u.eng.specs.RecFns[s]
+			_, isH := u.eng.specs.HFns[s]
+			if isU || isR || isH {
 				ar.syms = append(ar.syms, "("+s+" ")
 			}
 		}
@@ -350,11 +355,21 @@ func (u *Unit) solveAll(obls []*Obligation, active map[string]bool) {
 			if o.Auto && to > 2 {
 				to = 2 // automatic candidates are optional: do not wait for them
 			}
-			r := Solve(u.script(o, active), nil, to, u.eng.requireAll && !o.Auto)
+			// a goal that splits (conjuncts; one part per path into a join) gets a short first attempt as a whole:
+			// its parts are usually decided much faster than the whole
+			var parts []string
+			to1 := to
+			if !o.Auto {
+				parts = splitGoal(o.Goal.S)
+				if parts != nil && to > 4 && !u.eng.requireAll {
+					to1 = 4
+				}
+			}
+			r := Solve(u.script(o, active), nil, to1, u.eng.requireAll && !o.Auto)
 			o.Status, o.Solver, o.Ms, o.Output = r.Status, r.Solver, r.Ms, r.Output
 			if !o.Auto && r.Status != "unsat" && r.Status != "sat" {
-				// undecided: try the conjuncts of the goal one at a time (an equivalent set of goals)
-				if parts := splitGoal(o.Goal.S); parts != nil {
+				// undecided: try the parts of the goal one at a time (an equivalent set of goals)
+				if parts != nil {
 					all := true
 					var ms int64
 					solver := ""
@@ -375,6 +390,13 @@ func (u *Unit) solveAll(obls []*Obligation, active map[string]bool) {
 					o.Ms += ms
 					if all {
 						o.Status, o.Solver = "unsat", fmt.Sprintf("%s (goal split in %d)", solver, len(parts))
+					}
+				}
+				if o.Status != "unsat" && o.Status != "sat" && to1 < to {
+					r2 := Solve(u.script(o, active), nil, to, false)
+					o.Ms += r2.Ms
+					if r2.Status == "unsat" || r2.Status == "sat" {
+						o.Status, o.Solver, o.Output = r2.Status, r2.Solver, r2.Output
 					}
 				}
 			}
@@ -456,22 +478,9 @@ func (u *Unit) unreachableReturns() []string {
 			defer wg.Done()
 			sem <- struct{}{}
 			defer func() { <-sem }()
-			var b strings.Builder
-			for _, l := range u.c.lines[:rc.Prefix] {
-				b.WriteString(l)
-				b.WriteByte('\n')
-			}
-			for _, cd := range u.cands {
-				if flagDeclared(u.c.lines[:rc.Prefix], cd.Flag) {
-					if u.finalActive[cd.Flag] {
-						fmt.Fprintf(&b, "(assert %s)\n", cd.Flag)
-					} else {
-						fmt.Fprintf(&b, "(assert (not %s))\n", cd.Flag)
-					}
-				}
-			}
-			fmt.Fprintf(&b, "(assert %s)\n", rc.Pc.S)
-			r := Solve(b.String(), nil, 3, false)
+			// same query construction as for obligations (axioms nothing mentions are left out: they cannot make
+			// a path condition unsatisfiable, and quantified axioms turn a quick "sat" into a timeout)
+			r := Solve(u.script(&Obligation{Prefix: rc.Prefix, Goal: Not(rc.Pc)}, u.finalActive), nil, 3, false)
 			if r.Status == "unsat" {
 				mu.Lock()
 				out = append(out, rc.Name)
@@ -512,22 +521,7 @@ func (u *Unit) deadPostconditions() []string {
 				if a.Cond.S == "false" {
 					continue
 				}
-				var b strings.Builder
-				for _, l := range u.c.lines[:a.Prefix] {
-					b.WriteString(l)
-					b.WriteByte('\n')
-				}
-				for _, cd := range u.cands {
-					if flagDeclared(u.c.lines[:a.Prefix], cd.Flag) {
-						if u.finalActive[cd.Flag] {
-							fmt.Fprintf(&b, "(assert %s)\n", cd.Flag)
-						} else {
-							fmt.Fprintf(&b, "(assert (not %s))\n", cd.Flag)
-						}
-					}
-				}
-				fmt.Fprintf(&b, "(assert %s)\n", a.Cond.S)
-				if r := Solve(b.String(), nil, 2, false); r.Status != "unsat" {
+				if r := Solve(u.script(&Obligation{Prefix: a.Prefix, Goal: Not(a.Cond)}, u.finalActive), nil, 2, false); r.Status != "unsat" {
 					alive = true
 					break
 				}
